@@ -177,7 +177,7 @@ def run(res, tier, seed):
     for (cid, reason) in tr2["bad"]:
         e = by_id[cid]
         d = rz.describe(e["case"])
-        res.violation(what="C01 pixels " + reason, reason=reason, pt=d["pt"], alg=d["alg"], filter=d["filter"], cpu=d["cpu"], alpha=d["alpha"], case=d)
+        res.violation(what="C01 pixels " + reason, reason=reason, pt=d.get("pt"), alg=d.get("alg", d.get("op")), filter=d.get("filter"), cpu=d.get("cpu"), alpha=d.get("alpha"), case=d)
     res.samples = [coeffs.describe(lat[0]), rz.describe(cases[0]), rz.describe(cases[-1])]
     res.cov["coefficient_tables"] = len(ccases)
     res.cov["resizes_recomputed"] = n
